@@ -326,6 +326,10 @@ async fn a_link_to(op: &Value) -> Value {
         drop(l);
         return ok(json!({"dropped": true, "got": bytes_json(&got)}));
     }
+    if let Some(d) = opt_s(op, "chdir_before_commit") {
+        // the working directory changes between opening the linker and committing it
+        let _ = std::env::set_current_dir(d);
+    }
     let mut v = res_sri(l.commit().await);
     v["got"] = bytes_json(&got);
     v
